@@ -412,9 +412,11 @@ def set_values(w):
     return out
 
 
-def enabled(st, wu_max=2, set_max=2):
+def enabled(st, wu_max=2, set_max=2, cf_max=4):
     if st.dead:
         return []
+    if st.n_wu + st.n_set >= cf_max:
+        wu_max = set_max = 0
     evs = []
     for i, r in enumerate(st.s):
         if st.can_write(r):
@@ -647,7 +649,7 @@ def run_shard(shard, tier, seed):
     stats = Stats()
 
     def en(st):
-        return enabled(st, p["wu_max"], p["set_max"])
+        return enabled(st, p["wu_max"], p["set_max"], p["cf_max"])
 
     def judge(st, hist, mode):
         stats.count("closures")
